@@ -98,8 +98,10 @@ class Ctx(object):
         self.obligation('build:' + ' '.join(targets), ok, '' if ok else log[-3000:])
         if not ok:
             self.note('Coq build failed:\n' + log[-3000:])
-        problems = coq.audit()
+        files = coq.deps_closure(self.pid)
+        problems = coq.audit(files)
         self.obligation('audit:no-axioms-no-admits', not problems, '; '.join(problems[:20]))
+        self.extra['audited_files'] = [os.path.relpath(f, VERIF) for f in files]
         res = coq.check_props(self.pid, self.work)
         self.checker_cmds.append(res['cmd'])
         for p in res['shape_problems']:
